@@ -298,6 +298,25 @@ Definition admit_mask (f : list nat -> bool) (cands : list (list nat)) : N :=
 Definition list_eqb (a b : list nat) : bool := (length a =? length b) && forallb (fun p => fst p =? snd p) (combine a b).
 Definition sel_mask (sel cands : list (list nat)) : N := admit_mask (fun Z => existsb (list_eqb Z) sel) cands.
 
+(* coverage instrumentation (not used by any theorem): the algorithm with ONE step ablated.  A generated case
+   "exercises" a step iff ablating it changes the answer for some candidate set of that case.
+   k = 1: descendant test omitted; 2: ancestors of the adjustment set dropped from the ancestral subgraph (only
+   x, y, Z and the ancestors of x and y kept) -- matters exactly when a collider that is not an ancestor of x or y
+   has a proper descendant in Z; 3: no ancestral restriction (whole graph moralised); 4: moralisation omitted *)
+Definition valid_ablate (k : nat) (R : nat -> list nat) (ns : list nat) (es : list (nat * nat))
+           (x y : nat) (Z : list nat) : bool :=
+  if negb (k =? 1) && existsb (fun z => mem z (R x)) Z then false
+  else
+    let keep := match k with
+                | 2 => filter (fun v => mem v (x :: y :: Z) || existsb (fun t => mem t (R v)) [x; y]) ns
+                | 3 => ns
+                | _ => keep_nodes R ns (x :: y :: Z)
+                end in
+    let es2 := drop_out x (sub_edges keep es) in
+    let mes := if k =? 4 then es2 else es2 ++ marriages es2 keep in
+    let U := filter (fun v => negb (mem v Z)) keep in
+    negb (connected U (uadj mes) x y).
+
 (* one correspondence case: the program the implementation ran, and the list it reported *)
 Definition case_out (x y : nat) (prog : list op) (impl_sets : list (list nat)) :=
   let g := run_prog x y prog in
@@ -316,7 +335,11 @@ Definition case_out (x y : nat) (prog : list op) (impl_sets : list (list nat)) :
     admit_mask (valid_path_core R RH ns es x y) cands;
     sel_mask (minimal_of alg) cands;
     sel_mask (minimal_of impl_sets) cands;
-    N.of_nat (length (minimal_of impl_sets))],
+    N.of_nat (length (minimal_of impl_sets));
+    admit_mask (valid_ablate 1 R ns es x y) cands;
+    admit_mask (valid_ablate 2 R ns es x y) cands;
+    admit_mask (valid_ablate 3 R ns es x y) cands;
+    admit_mask (valid_ablate 4 R ns es x y) cands],
    map (fun v => mask (R v)) ns,
    map (fun t => mask (filter (fun v => mem t (R v)) ns)) ns,
    map (fun v => mask (UR v)) ns).
